@@ -19,38 +19,37 @@ def check_pair(ctx, rule: str, relpath: str, cname: str, wname: str, rname: str,
     if w is None or r is None:
         raise AnalysisError(f"{rule}: {cname}.{wname} / {cname}.{rname} not found")
     chk.analysed(w.qual, r.qual)
-    packs = [(c, packsym.fold_fmt(prog, w, cls, c.args[0])) for c in packsym.pack_calls(w)]
-    unpacks = [(c, t, packsym.fold_fmt(prog, r, cls, c.args[0])) for c, t, _s in packsym.unpack_sites(r)]
-    packs = [(c, f) for c, f in packs if isinstance(f, str) and len([i for i in (struct_items(f) or []) if i[0] != "x"]) >= min_items]
-    unpacks = [(c, t, f) for c, t, f in unpacks if isinstance(f, str) and len([i for i in (struct_items(f) or []) if i[0] != "x"]) >= min_items]
+    nvals = lambda f: len([i for i in (struct_items(f) or []) if i[0] != "x"])  # noqa: E731
+    packs = [(f, c, o) for f, c, o in packsym.writer_layouts(prog, cls, w) if nvals(f) >= min_items]
+    unpacks = [(f, c, t, o, sd) for f, c, t, o, sd in packsym.reader_layouts(prog, cls, r) if nvals(f) >= min_items]
     construct = f"{relpath}::{cname} {wname}<->{rname}"
     if not packs or not unpacks:
         raise AnalysisError(f"{rule}: no foldable struct layout with >= {min_items} items in {construct} (writer {len(packs)}, reader {len(unpacks)})")
     n = 0
-    wf = sorted({f for _c, f in packs})
-    rf = sorted({f for _c, _t, f in unpacks})
-    common = [f for f in wf if f in rf]
+    wf = [f for f, _c, _o in packs]
+    rf = [f for f, _c, _t, _o, _s in unpacks]
+    common = [f for f in dict.fromkeys(wf) if f in rf]
     if not common:
-        chk.bad(rule, construct, f"writer packs {wf} but reader unpacks {rf}", "writer and reader must use the same struct layout", A.loc(relpath, w.node))
+        chk.bad(rule, construct, f"writer packs {sorted(set(wf))} but reader unpacks {sorted(set(rf))}", "writer and reader must use the same struct layout", A.loc(relpath, w.node))
         return 0
     for fmt in common:
-        ws = sorted([c for c, f in packs if f == fmt], key=lambda c: (c.lineno, c.col_offset))
-        rs = sorted([(c, t) for c, t, f in unpacks if f == fmt], key=lambda x: (x[0].lineno, x[0].col_offset))
+        ws = [(c, o) for f, c, o in packs if f == fmt]
+        rs = [(c, t, o, sd) for f, c, t, o, sd in unpacks if f == fmt]
         if len(ws) != len(rs):
             chk.report(f"{rule}: {construct} layout {fmt}: {len(ws)} pack(s) vs {len(rs)} unpack(s) - ambiguous pairing, first of each compared")
             ws, rs = ws[:1], rs[:1]
-        for pc, (uc, ut) in zip(ws, rs):
-            res = packsym.analyse_pair(prog, cls, w, pc, r, uc, ut, fmt)
+        for (pc, wo), (uc, ut, ro, sd) in zip(ws, rs):
+            res = packsym.analyse_pair(prog, cls, wo, pc, ro, uc, ut, fmt, sd)
             n += 1
             if res.problems:
                 for kind, text in res.problems:
-                    chk.bad(rule, f"{construct} [{fmt}]", f"{kind}: {text}", "every position is written from and read into the same field", A.loc(relpath, pc))
+                    chk.bad(rule, f"{construct} [{fmt}]", f"{kind}: {text}", "every position is written from and read into the same field", A.loc(wo.module.relpath, pc))
             elif res.unresolved:
                 chk.report(f"{rule}: {construct} [{fmt}] unresolved: {'; '.join(res.unresolved)}")
                 chk.ok(rule, f"{construct} [{fmt}]", f"layout shared; positions not comparable ({res.unresolved[0]})", nontrivial=False)
             else:
                 named = sum(1 for s in res.w if s.kind in ("attr", "len"))
-                chk.ok(rule, f"{construct} [{fmt}]", f"{len(res.w)} positions: arity ok, no duplicate source, no swap, no zero-read, tags agree ({named} named fields)")
+                chk.ok(rule, f"{construct} [{fmt}] #{n}", f"{len(res.w)} positions: arity ok, no duplicate source, no swap, no zero-read, tags agree ({named} named fields; W={res.w} R={res.r})"[:400])
     return n
 
 
